@@ -34,11 +34,11 @@ SPEC = {
 
 
 def run(ctx: Ctx):
-    frames.orthonormal(ctx, "R1.1")
-    frames.right_handed_and_anchored(ctx, "R1.1h", "R1.1a")
-    exmap.r1_2(ctx)
-    exmap.r1_3(ctx)
-    exmap.r1_4(ctx)
-    exmap.r1_5(ctx)
-    exmap.r2_1(ctx)
-    exmap.r2_3(ctx)     # which references take the single-frame branch (one or two atoms only), and what it keeps
+    ctx.attempt("R1.1", lambda: frames.orthonormal(ctx, "R1.1"))
+    ctx.attempt("R1.1h", lambda: frames.right_handed_and_anchored(ctx, "R1.1h", "R1.1a"))
+    ctx.attempt("R1.2", lambda: exmap.r1_2(ctx))
+    ctx.attempt("R1.3", lambda: exmap.r1_3(ctx))
+    ctx.attempt("R1.4", lambda: exmap.r1_4(ctx))
+    ctx.attempt("R1.5", lambda: exmap.r1_5(ctx))
+    ctx.attempt("R2.1", lambda: exmap.r2_1(ctx))
+    ctx.attempt("R2.3", lambda: exmap.r2_3(ctx))     # which references take the single-frame branch (one or two atoms only), and what it keeps
